@@ -422,9 +422,18 @@ def shard(ctx):
         spec = make_rule_case(rng, tabs, 'negra')
         run_rules(ctx, spec, 'negra', rng, params=bad[i % len(bad)])
         ctx.case(['invalid', i % len(bad)], nontrivial=False)
+    # ---- inside sequences of other transformations (vt/pipeline.py) ----
+    from . import pipeline
+    pipeline.run(ctx, Cur, ('negra_mark_heads', 'mark_heads_by_rules'), 1500, 60000)
+
 
 
 def replay(ctx, case):
+    if case.get('kind') == 'pipeline':
+        install(ctx.R)
+        from . import pipeline
+        pipeline.run_case(ctx, Cur, case, ctx.rng('replay'))
+        return
     install(ctx.R)
     if case['kind'] == 'generic':
         Cur.ctx, Cur.case = ctx, case
